@@ -375,7 +375,7 @@ func (n *Node) render(sb *strings.Builder, paren bool) {
 			sb.WriteString("false")
 		}
 	case "ref":
-		sb.WriteString(n.S)
+		sb.WriteString(SpellName(n.S))
 	case "paren":
 		sb.WriteString("(")
 		n.A[0].render(sb, false)
@@ -547,7 +547,7 @@ func (s *Stmt) Render() string {
 					}
 					sb.WriteString(f.E.RenderTop())
 					if f.Alias != "" {
-						sb.WriteString(" as " + f.Alias)
+						sb.WriteString(" as " + SpellName(f.Alias))
 					}
 				}
 			}
@@ -556,7 +556,13 @@ func (s *Stmt) Render() string {
 		sb.WriteString("where ")
 		sb.WriteString(s.Where.RenderTop())
 		if len(s.Group) > 0 {
-			sb.WriteString(" group by " + strings.Join(s.Group, ", "))
+			sb.WriteString(" group by ")
+			for i, g := range s.Group {
+				if i > 0 {
+					sb.WriteString(", ")
+				}
+				sb.WriteString(SpellName(g))
+			}
 		}
 		if len(s.Order) > 0 {
 			sb.WriteString(" order by ")
@@ -564,7 +570,7 @@ func (s *Stmt) Render() string {
 				if i > 0 {
 					sb.WriteString(", ")
 				}
-				sb.WriteString(o.Name)
+				sb.WriteString(SpellName(o.Name))
 				if o.Dir != "" {
 					sb.WriteString(" " + o.Dir)
 				}
@@ -599,6 +605,15 @@ func (s *Stmt) Render() string {
 		panic("render: unknown statement kind " + s.Kind)
 	}
 	return sb.String()
+}
+
+// SpellName writes a field name as the query must spell it: a name that is
+// not a plain word (it contains a blank, a dash or a dot) needs backquotes.
+func SpellName(name string) string {
+	if strings.ContainsAny(name, " -.") {
+		return "`" + name + "`"
+	}
+	return name
 }
 
 // ExpandRefs replaces every alias use by a (cloned) copy of its definition,
